@@ -286,6 +286,11 @@ func runC15(c *Ctx) []Violation {
 						v.Finding = "xml-checksum-ignores-attributes-of-text-elements"
 						v.What = "xml: two records that differ only in an attribute of a text-only element have the same checksum"
 					}
+					// ... and text that stands next to child elements (mixed content) altogether
+					if w.Format == "xml" && w.Tag("xml.mixed-content-text") == fmt.Sprint(fi) && a.RawJSON == b.RawJSON && c.FindingOpen("xml-checksum-ignores-mixed-content-text") {
+						v.Finding = "xml-checksum-ignores-mixed-content-text"
+						v.What = "xml: two records that differ only in text standing next to child elements (mixed content) have the same checksum"
+					}
 					// ... and an element whose child elements all have one name as the array of their values
 					if w.Format == "xml" && w.Tag("xml.array-like-attribute") == fmt.Sprint(fi) && a.RawJSON == b.RawJSON && c.FindingOpen("xml-checksum-ignores-attributes-of-array-like-elements") {
 						v.Finding = "xml-checksum-ignores-attributes-of-array-like-elements"
